@@ -87,8 +87,15 @@ def lp_solve_facts():
     if not m2 or len(re.findall(r'solution\s*=', body)) != 1:
         raise E.ExtractError(LPW + ': LP::solve: `if (result == …) solution = …` not found exactly once after the retry')
     accept = _code_list(m2.group(1), LPW + ' LP::solve accept test')
-    if re.search(r'\bset_scaling\b|\bset_scalemode\b', body):
-        raise E.ExtractError(LPW + ': LP::solve changes the scaling between attempts (lp_solve then rescales the scaled model)')
+    # the scaling mode may only be changed on an UNSCALED model: set_scaling after a solve rescales the already scaled data and lp_solve
+    # then reports wrong optima with result 0 (measured); `unscale(lp); set_scaling(lp, …)` is the safe form
+    flatb = re.sub(r'\s+', '', between)
+    for m3 in re.finditer(r'set_scaling\(lp,([^;]*)\);', flatb):
+        pre = flatb[:m3.start()]
+        if not pre.endswith('unscale(lp);') and 'unscale(lp);' not in pre:
+            raise E.ExtractError(LPW + ': LP::solve changes the scaling between attempts without unscale(lp) first (lp_solve then rescales the scaled model)')
+    if re.search(r'\bset_scalemode\b', body) or re.search(r'\bset_scaling\b', body[:calls[0]]):
+        raise E.ExtractError(LPW + ': LP::solve touches the scaling mode outside the retry block')
     return retry, accept, ln
 
 
